@@ -706,3 +706,81 @@ class ProgressSuite(PairedSuite):
                     return (f"row {r} place {p}: struck {float(t - th):.3f}s after the (late) human bell it waited for; "
                             f"one interval is {float(iv):.3f}s")
         return None
+
+
+# ============================================================================= C19: a peal-speed change bends the rhythm without a jump
+class SpeedChangeSuite(PairedSuite):
+    name = "speed_change"
+    coq_cap = {"quick": 30, "thorough": 300}
+
+    def scenarios(self, rng, tier):
+        for i in range(80 if tier == "quick" else 800):
+            n = rng.choice([6, 8, 10])
+            peal0 = 180
+            iv0 = blow_interval(peal0, n)
+            look_to = Fraction(rng.randint(25, 60), 100) + Fraction(rng.randint(1, 999), 10 ** 6)
+            evs = [ev(0, "global", [True] * n), ev(Fraction(11, 1000), "user_entered", 1, "Wheatley")]
+            for b in range(1, n + 1):
+                evs.append(ev(Fraction(12, 1000) + Fraction(b, 100000), "assign", b, 1))
+            evs.append(ev(Fraction(8, 100), "row_gen", {"type": "method", "stage": n, "notation": "x1"}))
+            evs.append(ev(look_to, "call", "Look to"))
+            nrows = 8
+            changes = []
+            tcur = look_to + 3
+            for _ in range(rng.randint(1, 2)):
+                tc = tcur + iv0 * Fraction(rng.randint(150, 2500), 100) + Fraction(rng.randint(1, 999), 10 ** 6)
+                val = rng.choice([150, 200, 240, "210", 165.7, 120, 0, -5, "fast", None, True])
+                evs.append(ev(tc, "setting", [["peal_speed", val]]))
+                changes.append([fstr(tc), val])
+                tcur = tc
+            horizon = look_to + 3 + 2 * iv0 * (nrows * n) + Fraction(1, 3000)
+            rh = {"kind": "wait", "inertia": 1.0, "peal_speed": peal0, "gap": 1.0, "max": 15}
+            a = base({"kind": "placeholder"}, n, rh, evs, horizon)
+            a.update({"name": "Wheatley", "instance": 5, "stop_at_rounds": False})
+            yield {"a": a, "oracle": {"n": n, "look_to": fstr(look_to), "changes": changes}}
+
+    def cases(self, rng, tier):
+        yield from self.scenarios(rng, tier)
+
+    def oracle_C19(self, case, out):
+        o = out["a"]
+        if "trace" not in o:
+            return None
+        orc = case["oracle"]
+        n = orc["n"]
+        start, iv = Fraction(orc["look_to"]) + 3, blow_interval(180, n)
+        effective = []
+        for tc, val in orc["changes"]:
+            if isinstance(val, bool):
+                v = int(val)
+            elif isinstance(val, (int, float)):
+                v = int(val)
+            elif isinstance(val, str) and val.isdigit():
+                v = int(val)
+            else:
+                continue
+            if v > 0:
+                effective.append((Fraction(tc), v))
+        waits = {}
+        for it in o["trace"]:
+            if it[1] == "r_wait":
+                waits[(it[4], it[5])] = Fraction(it[0])
+        lines = [(Fraction(-1), start, iv)]
+        for tc, v in effective:
+            _t, s, i = lines[-1]
+            pos = (tc - s) / i                       # the blow position of the instant of the change
+            i2 = blow_interval(v, n)
+            lines.append((tc, tc - pos * i2, i2))
+        for (r, p, b, t) in wheatley_strikes(o):
+            tb = waits.get((r, p))
+            if tb is None:
+                continue
+            line = [l for l in lines if l[0] < tb][-1]
+            # a tick that was already asleep when the setting arrived keeps its old target
+            if any(tb < tc <= t for tc, _v in effective):
+                continue
+            want = line[1] + line[2] * (r * n + p + r // 2)
+            if abs(t - want) > TOL and want > tb:
+                return (f"after the peal-speed change(s) {orc['changes']} the strike of row {r} place {p} came at "
+                        f"{float(t):.5f}s, a line through the position of the change gives {float(want):.5f}s")
+        return None
